@@ -711,7 +711,7 @@ func (e *Engine) VerifyFunction(fn *ssa.Function) *FuncResult {
 		res.Assumed = append(res.Assumed, a)
 	}
 	sort.Strings(res.Assumed)
-	res.Prelude = "(declare-fun AllocBase () Int)\n(assert (> AllocBase 0))\n" + w.Prelude()
+	res.Prelude = w.Prelude()
 	for _, b := range fn.Blocks {
 		res.Instrs += len(b.Instrs)
 	}
